@@ -19,5 +19,6 @@ while read c prop; do
   git -C /repo checkout -- .
   if [ $rc -eq 1 ]; then echo "$c $prop: caught ($(echo "$out" | grep -c VIOLATION) violations)"; else echo "$c $prop: MISSED (rc=$rc) $(echo "$out" | tail -1)"; miss=1; fi
 done < /tmp/canaries.txt
+git -C /verif checkout -- evidence 2>/dev/null  # restore the clean-tree evidence files
 rm -f /tmp/canary.diff /tmp/canaries.txt; rm -rf replays
 exit $miss
